@@ -331,7 +331,7 @@ impl MemberKind {
 
         if let Some((prefix, n)) = value.find(char::is_numeric).and_then(|i| {
             let (prefix, n) = value.split_at(i);
-            Some((prefix, n.parse::<u32>().ok()?))
+            Some((prefix, parse_canonical::<u32>(n)?))
         }) {
             match (prefix, n) {
                 ("bytes", n) if (1..=32).contains(&n) => return MemberKind::Bytes(Some(n as _)),
@@ -346,7 +346,7 @@ impl MemberKind {
         }
         if let Some((prefix, n)) = value.strip_suffix(']').and_then(|value| {
             let (prefix, n) = value.rsplit_once('[')?;
-            Some((prefix, n.parse::<usize>().ok()?))
+            Some((prefix, parse_canonical::<usize>(n)?))
         }) {
             return MemberKind::Array(Box::new(MemberKind::from_str(prefix)), Some(n));
         }
@@ -361,6 +361,17 @@ impl MemberKind {
             _ => None,
         }
     }
+}
+
+/// Parses a decimal number, refusing every spelling other than the canonical
+/// one (a sign, leading zeros): a type string must be hashed exactly as it was
+/// declared, so `uint08` or `uint8[02]` are not alternative spellings of
+/// `uint8` and `uint8[2]` but (undefined) struct names.
+fn parse_canonical<T>(s: &str) -> Option<T>
+where
+    T: std::str::FromStr + ToString,
+{
+    s.parse::<T>().ok().filter(|n| n.to_string() == s)
 }
 
 impl Display for MemberKind {
